@@ -167,14 +167,15 @@ def kx(rep, prog):
         inits = [c for c in f.calls() if c.rpath.endswith("crypto_generichash_init")]
         ups = [c for c in f.calls() if c.rpath.endswith("crypto_generichash_update")]
         fins = [c for c in f.calls() if c.rpath.endswith("crypto_generichash_final")]
-        okc = len(inits) == 1 and len(ups) == 3 and len(fins) == 1
-        rep.ob("KX-HASH", "%s|init/3 updates/final" % side, okc, "init=%d update=%d final=%d" % (len(inits), len(ups), len(fins)), loc=f.loc())
+        seq = cm.absorb_sequence(f, ups) if ups else None
+        okc = len(inits) == 1 and seq is not None and len(seq) == 3 and len(fins) == 1
+        rep.ob("KX-HASH", "%s|init/3 updates/final" % side, okc, "init=%d update=%d (absorbing %s operands) final=%d" % (
+            len(inits), len(ups), len(seq) if seq is not None else "unordered", len(fins)), loc=f.loc())
         if not okc:
             continue
-        ups.sort(key=lambda c: len(f.dom.get(c.bb, ())))
-        roots = [cm.view_info(f, list(operand_locals(c.args[1]))[0])[0] for c in ups]
+        roots = [x[0] for x in seq]
         rep.ob("KX-HASH", "%s|order shared||client_pk||server_pk" % side, roots[0] in s and roots[1:] == want_hash and all(
-            ups[i].bb in f.dom.get(ups[i + 1].bb, ()) for i in range(2)),
+            x[2] in f.dom.get(fins[0].bb, ()) for x in seq),
             "updates absorb %s (expected the X25519 output, then parameters #%s and #%s)" % (
                 [("shared" if r_ in s else "#%s" % r_) for r_ in roots], want_hash[0], want_hash[1]), loc=ups[0].loc())
         outlen = evaluate(call_arg_exprs(inits[0])[1], {})
